@@ -137,6 +137,67 @@ def h_integ(ctx):
         ctx.cover("repartition")
 
 
+def h_inductive(ctx):
+    """One pull from an ARBITRARY state of an integration adapter.
+
+    State: buffered publications t_0 < .. < t_{m-1} (concrete irregular gaps, symbolic values), the previous
+    pull time p (= _prev_time) and the pull before it q <= p that the last clearing used.  Invariant of the real
+    clearing rule:  t_0 <= q <= p <= t_{m-1};  m > 1 -> t_1 > q.  Pull at r > p: the result must be the exact
+    integral (sum) / average over [p, r] of the interpolant of the buffered series, and the invariant must hold
+    again with (q, p) := (p, r)."""
+    par = ctx.params
+    which, linear = par["adapter"], par.get("linear", True)
+    gaps = par["gaps"]
+    hlib.reset_finam_state()
+    t0 = hlib.T0 if ctx.concrete else symx.SymDT.const(hlib.T0)
+    step = None if linear else ctx.real("step", lo=0, hi=1)
+    per_time = which in ("avg", "sum_per_time")
+    mk = {
+        "avg": lambda: fm.adapters.AvgOverTime(step=step),
+        "sum_per_time": lambda: fm.adapters.SumOverTime(step=step, per_time=True),
+        "sum_abs": lambda: fm.adapters.SumOverTime(step=step, per_time=False),
+    }[which]
+    units = "m/s" if which == "sum_per_time" else "m"
+    ada = mk()
+    out, inp = hlib.linked_pair(fm.Info(time=t0, grid=fm.NoGrid(1), units=units), adapters=[ada])
+    m = len(gaps) + 1
+    times, vals = [t0], [ctx.real("v0")]
+    for i in range(1, m):
+        times.append(times[-1] + timedelta(microseconds=gaps[i - 1]))
+        vals.append(ctx.real(f"v{i}"))
+    ada.data = [(t, fm.UNITS.Quantity(np.array([v], dtype=object), units)) for t, v in zip(times, vals)]
+    q = ctx.dt("q")
+    p = ctx.dt("p")
+    ctx.assume((times[0] <= q) & (q <= p) & (p <= times[-1]))
+    if m > 1:
+        ctx.assume(times[1] > q)
+    ada._prev_time = p
+    r = ctx.dt("r")
+    ctx.assume(r > p)
+    try:
+        d = inp.pull_data(r)
+        res = "ok"
+    except FinamTimeError:
+        res = "time-error"
+    ctx.cover("pull:" + res)
+    if res != "ok":
+        ctx.log("pull", res)
+        ctx.check(r > times[-1], "refused-inside-buffered-range", {"sig": which})
+        return
+    got = hlib.scalar_of(d)
+    ctx.log("pull", got)
+    exp, _c = integral(step, times, vals, p, r, per_time)
+    if which == "avg":
+        exp = exp / _secs(r - p)
+    ctx.check(ctx.eq(got, exp), "delivered-differs-from-exact-integral",
+              {"sig": f"{which}:{'linear' if linear else 'step'}:inductive"})
+    post = [bt for bt, _ in ada.data]
+    ctx.check(ctx.eq(ada._prev_time, r), "prev-time-not-updated")
+    ctx.check(post[0] <= p, "inv-discarded-entry-still-needed", {"sig": which})
+    if len(post) > 1:
+        ctx.check(post[1] > p, "inv-buffer-longer-than-needed", {"sig": which})
+
+
 EXPLANATION = (
     "Bounded symbolic execution (symx proxies + z3) of the real AvgOverTime/SumOverTime._interpolate, "
     "TimeIntegrationAdapter._source_updated/_get_data and SumOverTime._get_info behind a real Output and in front of a "
@@ -167,6 +228,13 @@ def families(tier):
                     bounds=f"{which}, {'linear' if linear else 'step (symbolic position in [0,1])'} interpolation; pattern "
                            f"{pat}; concrete irregular gaps {gaps} us; symbolic values and strictly increasing pulls",
                     must_cover=["pull:ok"], query_timeout_ms=20000))
+            fams.append(dict(
+                name=f"{which}:{'linear' if linear else 'step'}:inductive", ref="vf.props.c12:h_inductive",
+                params={"adapter": which, "linear": linear, "gaps": [3000000, 1000000, 5000000][: (2 if q else 3)]},
+                bounds=f"{which}, {'linear' if linear else 'step'}; ONE pull from an arbitrary adapter state (previous pull "
+                       f"times q <= p symbolic, buffer of {3 if q else 4} publications with concrete irregular gaps and "
+                       f"symbolic values) satisfying the clearing invariant",
+                must_cover=["pull:ok", "pull:time-error"], query_timeout_ms=20000))
             if not q:
                 fams.append(dict(
                     name=f"{which}:{'linear' if linear else 'step'}:PPPRR:symgaps", ref="vf.props.c12:h_integ",
